@@ -59,7 +59,7 @@ inline std::vector<GElem> build(const sim::Plan &plan, size_t from = 0, size_t t
         case G_BOPEN: { int depth = 0; for (int p = open; p >= 0; p = nodes[p].parent) depth++; if (depth >= 4) break;
             Node n; n.b = true; n.tt = (uint64_t)op.a[0]; n.parent = open; nodes.push_back(n); int id = (int)nodes.size() - 1; if (open >= 0) nodes[open].kids.push_back(id); else roots.push_back(id); open = id; curmsg = -1; break; }
         case G_BCLOSE: if (open >= 0) open = nodes[open].parent; curmsg = -1; break;
-        case G_ADDR: { if (open >= 0 && nodes[open].kids.size() >= 8) break;
+        case G_ADDR: { if (open >= 0 && nodes[open].kids.size() >= 14) break;   /* (8 until round h: a builder may treat more elements than some small number differently) */
             Node n; n.b = false; n.tt = 0; n.parent = open; size_t len = (size_t)std::max<int64_t>(1, std::min<int64_t>(op.a[0], 64)); n.m.addr = "/" + printable((uint64_t)op.a[1], len - 1, true);
             nodes.push_back(n); int id = (int)nodes.size() - 1; if (open >= 0) nodes[open].kids.push_back(id); else roots.push_back(id); curmsg = id; break; }
         case G_ARG: if (curmsg >= 0 && nodes[curmsg].m.args.size() < 40) { char tag = (char)op.a[0]; if (!strchr(TAGS, tag) || !tag) tag = 'i'; GArg ga = make_arg(tag, op.a[1], (uint64_t)op.a[2]); if (strchr("ifhdc", tag) && op.a[3] >= 2) ga.rep = (int)std::min<int64_t>(op.a[3], 9); nodes[curmsg].m.args.push_back(ga); } break;
@@ -90,8 +90,8 @@ inline std::vector<char> encode_msg(const GMsg &m) {
 inline std::vector<char> encode(const GElem &e);
 inline std::vector<char> encode_bundle(const GElem &e) {
     std::vector<std::vector<char>> kids; for (auto &k : e.kids) kids.push_back(encode(k));
-    std::vector<char> buf(256 * 1024); const char *p[8] = {0}; for (size_t i = 0; i < kids.size() && i < 8; i++) p[i] = kids[i].data();
-    size_t n = rtosc_bundle(buf.data(), buf.size(), e.tt, (int)std::min<size_t>(kids.size(), 8), p[0], p[1], p[2], p[3], p[4], p[5], p[6], p[7]); buf.resize(n); return buf;
+    std::vector<char> buf(256 * 1024); const char *p[16] = {0}; for (size_t i = 0; i < kids.size() && i < 16; i++) p[i] = kids[i].data();
+    size_t n = rtosc_bundle(buf.data(), buf.size(), e.tt, (int)std::min<size_t>(kids.size(), 16), p[0], p[1], p[2], p[3], p[4], p[5], p[6], p[7], p[8], p[9], p[10], p[11], p[12], p[13], p[14], p[15]); buf.resize(n); return buf;
 }
 inline std::vector<char> encode(const GElem &e) { return e.is_bundle ? encode_bundle(e) : encode_msg(e.msg); }
 
@@ -116,7 +116,7 @@ inline void gen_message(sim::Rng &r, sim::Plan &p, int max_args, int max_len) {
 }
 inline void gen_bundle(sim::Rng &r, sim::Plan &p, int depth, int max_len) {
     sim::Op o; o.kind = G_BOPEN; o.a[0] = r.chance(0.3) ? r.pick(std::vector<int64_t>{0, 1, -1, INT64_MAX}) : (int64_t)r.next(); p.push_back(o);
-    int n = (int)r.below(depth == 0 ? 9 : 4);
+    int n = depth == 0 ? (r.chance(0.15) ? 9 + (int)r.below(6) : (int)r.below(9)) : (int)r.below(4);   /* some bundles with more elements than any small fixed array inside the builder */
     for (int i = 0; i < n; i++) { if (depth < 4 && r.chance(0.25)) gen_bundle(r, p, depth + 1, max_len); else gen_message(r, p, 5, max_len / 4); }
     sim::Op c; c.kind = G_BCLOSE; p.push_back(c);
 }
